@@ -187,7 +187,7 @@ package q
 //@   loop 1 iter one-each: nEval - old(nEval) == 1 && input == last
 //@   ensures composition: implies(isnil(result1), result0 == ite(nEval == 0, input, last))
 //@ iface Expression.Evaluate(engine, input, args)
-//@   assigns everything
+//@   assigns H.*, M.*, G.*, E.gedcom*, E.*gedcom*, E.string, E.byte, alloc
 //@ sweep C15: AccessorExpr.Evaluate, FirstExpr.Evaluate, LastExpr.Evaluate, LengthExpr.Evaluate, QuestionMarkExpr.Evaluate, CombineExpr.Evaluate, OnlyExpr.Evaluate
 //@ sweep C15: Engine.StatementByVariableName, VariableExpr.Evaluate, CallExpr.Evaluate, ConstantExpr.Evaluate, ValueExpr.Evaluate
 
@@ -388,3 +388,15 @@ package q
 //@   requires e != nil && forall(j, 0, len(e.Statements), e.Statements[j] != nil)
 //@   loop 1 invariant not-earlier: forall(j, 0, rangeindex + 1, e.Statements[j] == nil || e.Statements[j].VariableName != name)
 //@   ensures found: implies(isnil(result1), result0 != nil && result0.VariableName == name)
+// Combine: every argument, in order, evaluated on the same input, appended
+// onto the slice built so far (which starts empty).
+//@ func CombineExpr.Evaluate
+//@   props C16
+//@   requires forall(j, 0, len(args), args[j] != nil)
+//@   ghost nApp int = 0
+//@   oncall Statement.Evaluate check same-input: arg1 == engine && arg2 == input
+//@   oncall Statement.Evaluate#2 check in-order: arg0 == arg
+//@   oncall reflect.MakeSlice check starts-empty: arg1 == 0
+//@   oncall reflect.AppendSlice check onto-result: arg0 == slice
+//@   oncall reflect.AppendSlice do nApp = nApp + 1
+//@   loop 1 iter each-argument: nApp - old(nApp) == 1
